@@ -69,14 +69,23 @@ def check_detection(world, ext, data, list_name, explicit=None):
     return fails
 
 
-def run_mutate(world, ext, data, output, backup, list_name, script, explicit_single=False):
-    """One mutate run + the follow-up no-op run. Returns failures."""
+STALE = b"#TITLE:stale file from an earlier run;\n#SUBTITLE:s;\n"
+
+
+def run_mutate(world, ext, data, output, backup, list_name, script, explicit_single=False, stale=False):
+    """
+    One mutate run + the follow-up no-op run. Returns failures.
+    stale: files already exist under the output and backup names (left by an earlier run).
+    """
     fails = []
 
     def fail(clause, expected, observed):
         fails.append({"clause": clause, "expected": core.jsonable(expected), "observed": core.jsonable(observed)})
 
     files = {"in" + ext: data, "other.txt": b"unrelated\n"}
+    if stale:
+        files["out" + ext] = STALE
+        files["bak" + ext] = STALE + b"#GENRE:b;\n"
     world.reset(files)
     inp = world.path("in" + ext)
     out = world.path("out" + ext) if output else None
@@ -173,6 +182,19 @@ def run_mutate(world, ext, data, output, backup, list_name, script, explicit_sin
     return fails
 
 
+def boundary_payloads():
+    out = [("sig-%s" % "".join("1" if x else "0" for x in sig), p) for sig, p in sorted(MU.representatives().items()) if len(p) > 1]
+    out += [
+        ("e-acute utf-8", "\u00e9".encode("utf-8")), ("hiragana utf-8", "\u3042".encode("utf-8")), ("g-clef utf-8", "\U0001d11e".encode("utf-8")),
+        ("hiragana cp932", "\u3042".encode("cp932")), ("hangul cp949", "\uac00".encode("cp949")),
+    ]
+    return out
+
+
+BOUNDARIES_QUICK = (512, 1024, 4096, 8192)
+BOUNDARIES_THOROUGH = (256, 512, 1024, 2048, 4096, 8192, 16384, 32768, 65536, 131072)
+
+
 _WORLDS = {}
 
 
@@ -195,7 +217,7 @@ def check_case(case):
         if case["kind"] == "detect":
             return check_detection(w, case["ext"], data, case["list"], case.get("explicit"))
         if case["kind"] == "mutate":
-            return run_mutate(w, case["ext"], data, case["output"], case["backup"], case["list"], case["script"], case.get("explicit_single", False))
+            return run_mutate(w, case["ext"], data, case["output"], case["backup"], case["list"], case["script"], case.get("explicit_single", False), case.get("stale", False))
     finally:
         close_worlds()
     raise core.MachineryError("unknown case")
@@ -241,6 +263,35 @@ def explore_shard(acc, shard):
                             acc.violation(f["clause"], case, f["expected"], f["observed"], signature=(f["clause"], "explicit"))
             if case:
                 acc.sample(layer, case)
+        elif kind == "B":
+            # a multi-byte character at every position around the usual buffer sizes: "the whole file decodes"
+            _, fsname, bound = shard
+            layer = "B multi-byte characters across buffer-size offsets"
+            w = world(fsname)
+            case = None
+            for pname, payload in boundary_payloads():
+                for ext in (".sm", ".ssc"):
+                    head = b"#VERSION:0.83;\n" if ext == ".ssc" else b""
+                    for d in range(0, len(payload) + 1):
+                        start = bound - d  # offset of the payload's first byte
+                        fixed = len(head) + len(b"#PAD:") + len(b";\n#TITLE:")
+                        data = head + b"#PAD:" + b"a" * (start - fixed) + b";\n#TITLE:" + payload + b";\n"
+                        assert data.index(payload) == start
+                        for tail in (b"", b"#ARTIST:" + b"b" * 40 + b";\n"):
+                            for ln in ("default", "reversed", "cp932-utf8"):
+                                case = {"kind": "detect", "fs": fsname, "ext": ext, "data": (data + tail).hex(), "list": ln}
+                                core.guard_cheap(acc, case)
+                                fails = check_detection(w, ext, data + tail, ln)
+                                acc.count("states")
+                                acc.count("transitions")
+                                acc.count("evaluations")
+                                acc.count("nontrivial")
+                                if 0 < d < len(payload):
+                                    acc.outcome("multi-byte character straddling a buffer-size offset")
+                                for f in fails:
+                                    acc.violation(f["clause"], case, f["expected"], f["observed"], signature=(f["clause"], "boundary"))
+            if case:
+                acc.sample(layer, {"fs": fsname, "boundary": bound, "payloads": [n for n, _ in boundary_payloads()]})
         elif kind == "M":
             _, sig_idx, fsname, maxlen, full = shard
             layer = "M mutate"
@@ -260,12 +311,15 @@ def explore_shard(acc, shard):
                             if backup == "output" and not output:
                                 continue
                             for ln, single in (("default", False), ("reversed", False), ("default", True)):
-                                for script in scripts:
+                                can_be_stale = output or backup == "other"
+                                for script, stale in ((sc, st) for sc in scripts for st in ((False, True) if can_be_stale and len(sc) <= 1 else (False,))):
                                     if len(script) >= 2 and not full and (ln != "default" or single or backup in ("input", "output")):
                                         continue
-                                    case = {"kind": "mutate", "fs": fsname, "ext": ext, "data": data.hex(), "output": output, "backup": backup, "list": ln, "script": list(script), "explicit_single": single}
+                                    case = {"kind": "mutate", "fs": fsname, "ext": ext, "data": data.hex(), "output": output, "backup": backup, "list": ln, "script": list(script), "explicit_single": single, "stale": stale}
                                     core.guard_cheap(acc, case)
-                                    fails = run_mutate(w, ext, data, output, backup, ln, script, single)
+                                    fails = run_mutate(w, ext, data, output, backup, ln, script, single, stale)
+                                    if stale:
+                                        acc.outcome("output / backup name already taken by an older file")
                                     acc.count("states")
                                     acc.count("transitions")
                                     acc.count("evaluations")
@@ -297,6 +351,9 @@ def explore(run):
     else:
         for lo in (0x81, 0x8E, 0xA1, 0xC3, 0xE3, 0xF0, 0xFD):
             shards.append(("E", lo, lo + 1, True, "mem"))
+    for b in (BOUNDARIES_THOROUGH if run.thorough() else BOUNDARIES_QUICK):
+        shards.append(("B", "mem", b))
+        shards.append(("B", "nat", b))
     nsig = len(MU.representatives())
     maxlen = 3 if run.thorough() else 2
     for i in range(nsig):
@@ -310,13 +367,16 @@ def explore(run):
         "E: every 1-byte payload (MemoryFS and native) and "
         + ("every 2-byte payload with a high lead byte" if run.thorough() else "all 2-byte payloads for 7 lead bytes")
         + f" embedded as '#TITLE:<payload>;' in .sm and .ssc x tried lists {list(LISTS)} + explicit encoding= ; "
+        f"B: {len(boundary_payloads())} multi-byte payloads placed at every offset N-d (d = 0..length) for N in {list(BOUNDARIES_THOROUGH if run.thorough() else BOUNDARIES_QUICK)}, with and without text behind, x 3 lists x both filesystems; "
         f"M: one representative payload per decodability signature ({nsig} signatures found by brute force) x 2 layouts x {{.sm,.ssc}} x output name x backup {{none, other, =input, =output}} x "
-        f"encoding list {{default, reversed, explicit}} x filesystem x edit scripts of length <= {maxlen} over {MU.EDITS}; after each run the whole filesystem is compared with the model and a no-op mutate is run on the written file. "
+        f"encoding list {{default, reversed, explicit}} x filesystem x edit scripts of length <= {maxlen} over {MU.EDITS} x (for scripts of <= 1 edit) output/backup names free or already taken by older files; after each run the whole filesystem is compared with the model and a no-op mutate is run on the written file. "
         "Non-trivial = payload not decodable everywhere / any edit, output or backup."
     )
     run.assumptions = ["Python's codecs define what 'decodes' means", "values contain no bare carriage return", "MemoryFS text streams do no newline translation, native ones do (universal newlines)"]
     core.require(acc.outcomes["no tried encoding decodes (UnicodeDecodeError)"] > 0, "error clause not exercised")
     core.require(acc.outcomes["clashing backup name"] > 0, "no clashing backup name")
+    core.require(acc.outcomes["output / backup name already taken by an older file"] > 0, "no pre-existing output / backup file")
+    core.require(acc.outcomes["multi-byte character straddling a buffer-size offset"] > 0, "no straddling character")
     core.require(acc.outcomes["edit adds a character the detected encoding lacks"] > 0, "unencodable edit never tried")
     core.require(any(k.startswith("file read and written in cp") for k in acc.outcomes), "no non-UTF-8 file")
     return run.finish(
